@@ -128,6 +128,13 @@ func c11Templates() []c11Tmpl {
 		{"rename(\"new\",K)", one(func(k nodeFn) *rt.Node { return rt.Call("rename", S("nw"), k()) }), true},
 		{"rename(K,o1)", one(func(k nodeFn) *rt.Node { return rt.Call("rename", k(), Id("o3")) }), false},
 		{"rename(K,K)", one(func(k nodeFn) *rt.Node { return rt.Call("rename", k(), k()) }), true},
+		{"rename(message,K)", one(func(k nodeFn) *rt.Node { return rt.Call("rename", Id("message"), k()) }), true},
+		{"rename(K,message)", one(func(k nodeFn) *rt.Node { return rt.Call("rename", k(), Id("message")) }), false},
+		{"printf(fmt,load_json(K))", one(func(k nodeFn) *rt.Node { return rt.Call("printf", S("j=%v|\n"), rt.Call("load_json", k())) }), false},
+		{"printf(fmt,len(load_json(K))+1)", one(func(k nodeFn) *rt.Node {
+			return rt.Call("printf", S("n=%d|\n"), rt.Bin("+", rt.Call("len", rt.Call("load_json", k())), I(1)))
+		}), false},
+		{"strfmt(dst,%v,load_json(K))", one(func(k nodeFn) *rt.Node { return rt.Call("strfmt", Id("dst"), S("<%v>"), rt.Call("load_json", k())) }), false},
 		{"set_measurement(K)", one(func(k nodeFn) *rt.Node { return rt.Call("set_measurement", k()) }), false},
 		{"set_measurement(K,true)", one(func(k nodeFn) *rt.Node { return rt.Call("set_measurement", k(), rt.Bool(true)) }), false},
 		{"set_measurement(K,false)", one(func(k nodeFn) *rt.Node { return rt.Call("set_measurement", k(), rt.Bool(false)) }), false},
@@ -244,6 +251,7 @@ func c11Run(w *run.Worker) {
 						cs := c11Case{Source: src, Tags: p.Point.Tags, Fields: p.Point.Fields}
 						if v.Skipped != "" {
 							w.Note("unspecified_cells_skipped", 1)
+							w.Note("unspecified:"+v.Skipped, 1)
 							continue
 						}
 						if !v.OK {
